@@ -1,0 +1,72 @@
+//go:build verif
+
+// Contracts for the deductive verifier in /verif (govc). This file contains no code: with the
+// build tag off it is not part of the package, with it on it adds nothing to the build.
+package keeper
+
+//@ import sdk "github.com/cosmos/cosmos-sdk/types"
+//@ import sdkmath "cosmossdk.io/math"
+//@ import feemarkettypes "github.com/EscanBE/evermint/v12/x/feemarket/types"
+//@ import ethparams "github.com/ethereum/go-ethereum/params"
+//@ import storetypes "cosmossdk.io/store/types"
+
+// Abstract fee-market state per store layer (DESIGN.md §4): the stored Params record.
+//@ ghost var fmBaseFee map[int]int
+//@ ghost var fmBaseFeeNil map[int]bool
+//@ ghost var fmMinGasPrice map[int]int
+
+// gas limit of the current block as CalculateBaseFee reads it from the consensus params
+//@ ghost func fmGasLimit(hasBlock bool, maxGas int) int = (hasBlock && maxGas > -1) ? maxGas : pow2(64) - 1
+
+// Keeper accessors of the params record: trusted summaries of store + protobuf codec (listed in trusted_base).
+//@ func (k Keeper) GetParams(ctx sdk.Context) (params feemarkettypes.Params)
+//@   assumed
+//@   modifies nothing
+//@   ensures inil(params.BaseFee) == fmBaseFeeNil[layer(ctx)] && (!inil(params.BaseFee) ==> iv(params.BaseFee) == fmBaseFee[layer(ctx)])
+//@   ensures !dnil(params.MinGasPrice) && dv(params.MinGasPrice) == fmMinGasPrice[layer(ctx)]
+//@   panics never
+
+//@ func (k Keeper) SetParams(ctx sdk.Context, params feemarkettypes.Params) (err error)
+//@   assumed
+//@   modifies fmBaseFee[layer(ctx)], fmBaseFeeNil[layer(ctx)], fmMinGasPrice[layer(ctx)]
+//@   ensures (err == nil) == (!inil(params.BaseFee) && iv(params.BaseFee) >= 0 && !dnil(params.MinGasPrice) && dv(params.MinGasPrice) >= 0)
+//@   ensures err == nil ==> (fmBaseFee[layer(ctx)] == iv(params.BaseFee) && !fmBaseFeeNil[layer(ctx)] && fmMinGasPrice[layer(ctx)] == dv(params.MinGasPrice))
+//@   ensures err != nil ==> (fmBaseFee[layer(ctx)] == old(fmBaseFee[layer(ctx)]) && fmBaseFeeNil[layer(ctx)] == old(fmBaseFeeNil[layer(ctx)]) && fmMinGasPrice[layer(ctx)] == old(fmMinGasPrice[layer(ctx)]))
+//@   panics never
+
+//@ func (k feemarkettypes.EvmKeeper) GetChainConfig(ctx sdk.Context) *ethparams.ChainConfig
+//@   assumed
+//@   pure
+//@   ensures result != nil
+//@   panics never
+
+//@ func (k Keeper) SetBaseFee(ctx sdk.Context, baseFee sdkmath.Int)
+//@   requires fmMinGasPrice[layer(ctx)] >= 0
+//@   modifies fmBaseFee[layer(ctx)], fmBaseFeeNil[layer(ctx)], fmMinGasPrice[layer(ctx)]
+//@   ensures[C09.stored] fmBaseFee[layer(ctx)] == iv(baseFee) && !fmBaseFeeNil[layer(ctx)] && fmMinGasPrice[layer(ctx)] == old(fmMinGasPrice[layer(ctx)])
+//@   panics[C09.set_base_fee_panics,C20.set_base_fee_panics] iff inil(baseFee) || iv(baseFee) < 0
+
+// C09: next base fee = max(EIP-1559(b, used, limit), trunc(minGasPrice)); never negative; never fails.
+//@ func (k Keeper) CalculateBaseFee(ctx sdk.Context) sdkmath.Int
+//@   requires !fmBaseFeeNil[layer(ctx)] && fmBaseFee[layer(ctx)] >= 0 && fmMinGasPrice[layer(ctx)] >= 0
+//@   requires ctx.BlockGasMeter() != nil && k.evmKeeper != nil
+//@   requires (ctx.ConsensusParams().Block != nil ==> ctx.ConsensusParams().Block.MaxGas >= -1) && k.evmKeeper != nil && fmMinGasPrice[layer(ctx)] < pow2(256) * 1000000000000000000
+//@   modifies nothing
+//@   ensures[C09.eip1559] londonActive(k.evmKeeper.GetChainConfig(ctx), ctx.BlockHeight()) ==> iv(result) == max(eip1559next(fmBaseFee[layer(ctx)], gmToLimit[payload(ctx.BlockGasMeter())], fmGasLimit(ctx.ConsensusParams().Block != nil, ctx.ConsensusParams().Block.MaxGas)), fmMinGasPrice[layer(ctx)] / 1000000000000000000)
+//@   ensures[C09.floor] !inil(result) && iv(result) >= 0 && iv(result) >= fmMinGasPrice[layer(ctx)] / 1000000000000000000
+//@   panics[C09.never_fails,C20.never_fails] never
+
+//@ func (k Keeper) updateBaseFeeForNextBlock(ctx sdk.Context)
+//@   requires !fmBaseFeeNil[layer(ctx)] && fmBaseFee[layer(ctx)] >= 0 && fmMinGasPrice[layer(ctx)] >= 0
+//@   requires (ctx.ConsensusParams().Block != nil ==> ctx.ConsensusParams().Block.MaxGas >= -1) && k.evmKeeper != nil && fmMinGasPrice[layer(ctx)] < pow2(256) * 1000000000000000000
+//@   modifies fmBaseFee[layer(ctx)], fmBaseFeeNil[layer(ctx)], fmMinGasPrice[layer(ctx)], evlog[payload(ctx.EventManager())]
+//@   ensures[C09.stored_next] (ctx.BlockGasMeter() != nil && londonActive(k.evmKeeper.GetChainConfig(ctx), ctx.BlockHeight())) ==> fmBaseFee[layer(ctx)] == max(eip1559next(old(fmBaseFee[layer(ctx)]), gmToLimit[payload(ctx.BlockGasMeter())], fmGasLimit(ctx.ConsensusParams().Block != nil, ctx.ConsensusParams().Block.MaxGas)), old(fmMinGasPrice[layer(ctx)]) / 1000000000000000000)
+//@   ensures[C09.stays_valid] !fmBaseFeeNil[layer(ctx)] && fmBaseFee[layer(ctx)] >= 0 && fmMinGasPrice[layer(ctx)] == old(fmMinGasPrice[layer(ctx)])
+//@   panics[C09.end_block_never_fails,C20.end_block_never_fails] never
+
+//@ func (k Keeper) EndBlock(ctx sdk.Context)
+//@   requires !fmBaseFeeNil[layer(ctx)] && fmBaseFee[layer(ctx)] >= 0 && fmMinGasPrice[layer(ctx)] >= 0
+//@   requires (ctx.ConsensusParams().Block != nil ==> ctx.ConsensusParams().Block.MaxGas >= -1) && k.evmKeeper != nil && fmMinGasPrice[layer(ctx)] < pow2(256) * 1000000000000000000
+//@   modifies fmBaseFee[layer(ctx)], fmBaseFeeNil[layer(ctx)], fmMinGasPrice[layer(ctx)], evlog[payload(ctx.EventManager())]
+//@   ensures[C09.stays_valid] !fmBaseFeeNil[layer(ctx)] && fmBaseFee[layer(ctx)] >= 0
+//@   panics[C09.end_block_never_fails,C20.end_block_never_fails] never
